@@ -15,7 +15,7 @@ type case =
   | Itos of string
 
 let id = "C10"
-let rule = "streams of random RESP trees (depth<=4; ints at -1025..-1023, 524286..524289, int64 limits; binary bulks with CR/LF; nil vs empty; built from struct literals, through the constructors NewInt / NewBulkBytes / NewArray + Append*, and as NewCommand(name, string / []byte / nil / int64 args)), \
+let rule = "streams of random RESP trees (depth<=4; ints at -1025..-1023, 524286..524289, int64 limits; binary bulks with CR/LF; nil vs empty; arrays of 1023 / 1024 / 1025 / 3000 elements; built from struct literals, through the constructors NewInt / NewBulkBytes / NewArray + Append*, and as NewCommand(name, string / []byte / nil / int64 args)), \
 inline command lines and keep-alive newlines, read through bufio sizes 16..4096 and readers returning 1..n bytes; for each of a set of values \
 ALL truncations and single-byte corruptions (every position x 9 replacement bytes); non-trivial = stream with >=1 value; distinct by wire line"
 
@@ -70,6 +70,10 @@ let gen st tier =
                     | 4 -> AS (rnd_string_of st "\r\n$*ab" (rnd_int st 6)) | _ -> AB (no_nl st (rnd_int st 8))))
       | _ -> V (gen_tree st 0)) in
     Stream (rnd_pick st [ 16; 17; 64; 4096 ], rnd_pick st [ 1; 2; 7; 100000 ], items, true)) in
+  (* arrays far longer than any pre-allocation bound a decoder might use *)
+  let long_arrays = List.map (fun n ->
+      Stream (4096, 100000, [ V (A (Some (List.init n (fun i -> if i mod 3 = 0 then I (string_of_int i) else B (Some (string_of_int i)))))); V (S "NEXT") ], true))
+      ([ 1023; 1024; 1025 ] @ (if thorough then [ 3000; 70000 ] else [ 3000 ])) in
   let vals = List.init (8 * k) (fun _ -> gen_tree st 2) @ [ B (Some "ab"); A (Some [ B (Some "SET"); B (Some "k"); I "-1025" ]); S "OK"; A None ] in
   let corrupt = List.concat_map (fun t ->
     let e = enc_model t in
@@ -83,7 +87,7 @@ let gen st tier =
         [ '\000'; '\n'; '\r'; '0'; '9'; '-'; ' '; '\255'; Char.chr (Char.code e.[pos] lxor 1) ])
       (List.init (String.length e) (fun i -> i))) vals in
   let itos = List.map (fun d -> Itos d) ints @ List.init 50 (fun _ -> Itos (string_of_int (rnd_int st 1100000 - 2000))) in
-  streams @ corrupt @ itos
+  streams @ long_arrays @ corrupt @ itos
 
 (* F5 witness: an inline command's first byte was counted twice *)
 let corpus = [ Stream (4096, 100000, [ Inline "PING"; V (B (Some "x")) ], true);
